@@ -545,6 +545,9 @@ def write_evidence(pid, mod, tier, seed, results, totals, known_hits, violations
         'known_findings_refound': {k: n for k, (_, n) in known_hits.items()},
         'translator_validation': {'cases': sum(r['validation']['cases'] for r in results),
                                   'disagreements': sum(r['validation']['disagreements'] for r in results)},
+        'concrete_only': {'configurations': sum(1 for r in results if r.get('concrete_only_points') is not None),
+                          'sampled_points': sum(r.get('concrete_only_points') or 0 for r in results),
+                          'note': 'configurations outside the encoding (said in the harness): evaluated on the real code at sampled points, counted under discharged_trivially, never as a solver verdict'},
         'evaluations': agg('queries'),
         'distinct_nontrivial': agg('nontrivial') + agg('normal_form'),
         'distinct_configurations_with_symbolic_obligations': distinct,
